@@ -257,3 +257,151 @@ def oracle_sets(topo, objs):
                 if o in last and s <= last[o]: v2.append(('pipeline-order', f"node {n['name']} got seq {s} of {o} after {last[o]}"))
                 last[o] = max(ss)
     return v1, v2
+
+
+# ---------------------------------------------------------------------------------------------- extra campaigns (C01/C02/C04/C05/C07)
+
+def campaign_sets(ctx, prop, n):
+    """C01/C02 at pipeline level, outside C03's hypotheses too (skips on rejoined branches, PUB loss): one provenance per set,
+    strictly increasing sequence numbers at every node."""
+    from .core import Violation
+    res, rng = ctx.result, ctx.rng
+    fam = {}
+    for _ in range(n):
+        topo = gen_topology(rng, c03=False)
+        loss = rng.choice([0.0, 0.0, 0.05])
+        sd = rng.randrange(10**9)
+        net, objs, _ = run_topology(topo, sd, loss=loss, horizon_s=25)
+        v1, v2 = oracle_sets(topo, objs)
+        got = sum(len(objs[nd['name']].log) for nd in topo['nodes'] if nd['sources'])
+        res.note({'pipeline': topo['family'], 'loss': loss, 'nodes': [(nd['name'], nd['sources'], nd['beh']) for nd in topo['nodes']]}, nontrivial=False)
+        if got: res.nontrivial.add(f'pipe:{sd}')
+        fam[topo['family']] = fam.get(topo['family'], 0) + 1
+        for key, what in (v1 if prop == 'C01' else v2)[:1]:
+            res.violations.append(Violation(key, what, {'topo': topo, 'net_seed': sd, 'loss': loss}))
+    res.extra['pipeline_families'] = fam
+
+
+def campaign_stall(ctx, n):
+    """C04 at pipeline level: stall a synchronised consumer at a random time; count what its producers publish afterwards."""
+    from .core import Violation
+    res, rng = ctx.result, ctx.rng
+    SEC = 1_000_000_000
+    worst = {}
+    for _ in range(n):
+        pos = rng.choice(['sole', 'one-of-two', 'behind-relay'])
+        nodes = [{'name': 'S', 'sources': [], 'beh': {'kind': 'src', 'topics': ['main']}, 'work': rng.choice([0, 10, 40]), 'out': True}]
+        if pos == 'sole':
+            nodes.append({'name': 'K', 'sources': ['ipc://S'], 'beh': {'kind': 'sink'}, 'work': rng.choice([0, 20, 150]), 'out': False}); victim = 'K'
+        elif pos == 'one-of-two':
+            nodes.append({'name': 'K', 'sources': ['ipc://S'], 'beh': {'kind': 'sink'}, 'work': rng.choice([0, 20, 150]), 'out': False})
+            nodes.append({'name': 'L', 'sources': ['ipc://S'], 'beh': {'kind': 'sink'}, 'work': rng.choice([0, 20]), 'out': False}); victim = 'K'
+        else:
+            nodes.append({'name': 'R', 'sources': ['ipc://S'], 'beh': {'kind': 'pass'}, 'work': rng.choice([0, 20]), 'out': True})
+            nodes.append({'name': 'K', 'sources': ['ipc://R'], 'beh': {'kind': 'sink'}, 'work': rng.choice([0, 20, 150]), 'out': False}); victim = 'K'
+        for nd in nodes:
+            nd['required'] = [m['name'] for m in nodes if any(s == 'ipc://' + nd['name'] for s in m['sources'])]
+        topo = {'family': 'stall-' + pos, 'nframes': 10**9, 'nodes': nodes, 'max_delay_ms': rng.choice([0, 5, 30, 90])}
+        t1 = rng.randint(1 * SEC, 3 * SEC)
+        sd = rng.randrange(10**9)
+        faults = [{'t': t1, 'kind': 'stall', 'node': victim, 'arg': 60 * SEC}]
+        net, objs, _ = run_topology(topo, sd, horizon_s=(t1 + 4 * SEC) / SEC, faults=faults)     # 4 s < connection time-out (5 s)
+        S = objs['S']
+        after = sum(1 for t in S.sends if t > t1)
+        worst[pos] = max(worst.get(pos, 0), after)
+        res.note({'pipeline': topo['family'], 'stall_at_s': t1 / SEC, 'delay_ms': topo['max_delay_ms'], 'published_after_stall': after}, nontrivial=False)
+        if S.sends: res.nontrivial.add(f'stall:{sd}')
+        if after > 9:
+            res.violations.append(Violation('overrun-after-stall:' + pos, f'source published {after} blocks in the 4 s after consumer {victim} stalled', {'topo': topo, 'faults': faults, 'net_seed': sd}))
+    res.extra['max_published_after_stall'] = worst
+
+
+def campaign_eph(ctx, n):
+    """C05 at pipeline level: the same pipeline and schedule seed with and without ephemeral listeners (fast, slow, stalled or killed)."""
+    from .core import Violation
+    res, rng = ctx.result, ctx.rng
+    SEC = 1_000_000_000
+    kinds = {}
+    for _ in range(n):
+        topo = gen_topology(rng, family=rng.choice(['chain', 'tee']), c03=True)
+        for nd in topo['nodes']: nd['beh'].pop('skip', None)
+        pubs = [nd['name'] for nd in topo['nodes'] if nd['out']]
+        lst = []
+        for i in range(rng.randint(1, 2)):
+            p = rng.choice(pubs)
+            lst.append({'name': f'E{i}', 'sources': [f'ipc://{p}' + rng.choice(['?', '??'])], 'work': rng.choice([0, 50, 400])})
+        behaviour = rng.choice(['run', 'stall', 'kill'])
+        faults = []
+        if behaviour != 'run':
+            for l in lst:
+                faults.append({'t': rng.randint(0, 1 * SEC), 'kind': 'stall' if behaviour == 'stall' else 'kill', 'node': l['name'], 'arg': 100 * SEC})
+        sd = rng.randrange(10**9)
+        net0, o0, inp = run_topology(topo, sd, horizon_s=40)
+        net1, o1, _ = run_topology(topo, sd, horizon_s=40, listeners=lst, faults=faults or None)
+        kinds[behaviour] = kinds.get(behaviour, 0) + 1
+        res.note({'pipeline': topo['family'], 'listeners': lst, 'listener_behaviour': behaviour}, nontrivial=False)
+        res.nontrivial.add(f'eph:{sd}')
+        for nd in topo['nodes']:
+            if not nd['sources']: continue
+            a = [canon_frames(fr) for fr in o0[nd['name']].raw_log]
+            b = [canon_frames(fr) for fr in o1[nd['name']].raw_log]
+            exp = [canon_frames(fr) for _, fr in inp[nd['name']]]
+            if b != exp:
+                res.violations.append(Violation('eph-alters-pipeline', f"node {nd['name']}: with listeners {[(l['sources'], behaviour) for l in lst]} process() saw {len(b)} sets, composition gives {len(exp)} (without listeners: {len(a)})",
+                                                {'topo': topo, 'listeners': lst, 'faults': faults, 'net_seed': sd}))
+                break
+        for l in lst:       # `??` never sends anything; ephemeral sets complete (single provenance) and non-decreasing
+            lo = o1[l['name']]
+            last = None
+            for fr in lo.log:
+                seqs = {s for (o, s) in fr.values() if s is not None}
+                if len(seqs) > 1: res.violations.append(Violation('eph-set-mixed', f"listener {l['name']} got {fr}", {'topo': topo, 'listeners': lst, 'net_seed': sd})); break
+                if seqs:
+                    s = min(seqs)
+                    if last is not None and s < last: res.violations.append(Violation('eph-order', f"listener {l['name']}: {s} after {last}", {'topo': topo, 'listeners': lst, 'net_seed': sd})); break
+                    last = s
+    res.extra['listener_behaviours'] = kinds
+
+
+def campaign_balance(ctx, n):
+    """C07 at pipeline level: splitter -> 2-4 workers of different speeds (+ optional ?? watchers) -> joiner."""
+    from .core import Violation
+    res, rng = ctx.result, ctx.rng
+    for _ in range(n):
+        nw = rng.randint(2, 4)
+        nframes = rng.randint(8, 16)
+        nodes = [{'name': 'S', 'sources': [], 'beh': {'kind': 'src', 'topics': ['main']}, 'work': rng.choice([0, 10, 50]), 'out': True, 'outs_balance': True, 'multi_out': nw}]
+        for i in range(nw):
+            nodes.append({'name': f'W{i}', 'sources': [f'ipc://S_{i}'], 'beh': {'kind': 'pass'}, 'work': rng.choice([0, 20, 60, 200]), 'out': True})
+        nodes.append({'name': 'J', 'sources': [f'ipc://W{i}' for i in range(nw)], 'beh': {'kind': 'sink'}, 'work': rng.choice([0, 10]), 'out': False, 'srcs_balance': True})
+        topo = {'family': f'balance-{nw}', 'nframes': nframes, 'nodes': nodes, 'max_delay_ms': rng.choice([0, 5, 30])}
+        sd = rng.randrange(10**9)
+        net = mqnet.Net(sd, max_delay_ms=topo['max_delay_ms'])
+        objs = {}
+        S = mqnet.Node(net, 'S', None, [f'ipc://S_{i}' for i in range(nw)], mk_behaviour(nodes[0]['beh']), outs_balance=True, work_ms=nodes[0]['work'], nframes=nframes)
+        S.sends = []; S.evals = []; objs['S'] = S
+        for i in range(nw):
+            objs[f'W{i}'] = mqnet.Node(net, f'W{i}', [f'ipc://S_{i}'], [f'ipc://W{i}'], mk_behaviour({'kind': 'pass'}), required=['J'], work_ms=nodes[1 + i]['work'])
+        watchers = []
+        if rng.random() < 0.4:
+            objs['Q'] = mqnet.Node(net, 'Q', [f'ipc://W{rng.randrange(nw)}??'], None, mk_behaviour({'kind': 'sink'})); watchers.append('Q')
+        objs['J'] = mqnet.Node(net, 'J', [f'ipc://W{i}' for i in range(nw)], None, mk_behaviour({'kind': 'sink'}), srcs_balance=True, work_ms=nodes[-1]['work'])
+        mqnet.run(net, horizon_s=30, until=lambda net: not net.inflight and all(n.wake > net.now + 3 * mqnet.POLL_NS for n in net.nodes if n.alive and n.name != 'S') and S.produced >= nframes and net.now > 2e9)
+        res.note({'pipeline': topo['family'], 'worker_ms': [nd['work'] for nd in nodes[1:-1]], 'watchers': watchers, 'joined': len(objs['J'].log)}, nontrivial=False)
+        if objs['J'].log: res.nontrivial.add(f'bal:{sd}')
+        case = {'balance_topo': topo, 'net_seed': sd}
+        seen = {}
+        for i in range(nw):
+            for fr in objs[f'W{i}'].log:
+                for t, (o, s) in fr.items():
+                    if s in seen and seen[s] != i:
+                        res.violations.append(Violation('frame-on-two-branches', f'frame {s} reached workers {seen[s]} and {i}', case))
+                    seen[s] = i
+        last = None
+        for fr in objs['J'].log:
+            seqs = {s for (o, s) in fr.values() if s is not None}
+            if len(seqs) > 1: res.violations.append(Violation('rejoin-mixed', f'joined set {fr}', case)); break
+            if seqs:
+                s = min(seqs)
+                if last is not None and s <= last: res.violations.append(Violation('rejoin-order', f'joined {s} after {last}', case)); break
+                last = s
